@@ -12,7 +12,9 @@
 package main
 
 import (
+	"bufio"
 	"bytes"
+	"crypto/tls"
 	"fmt"
 	"math/rand"
 	"runtime"
@@ -190,7 +192,13 @@ func walkThread(o *observed, t []imapclient.ThreadData, depth int, cmdErr error)
 // and the results were walked.
 func feed(w *hx.W, class, desc string, stream []byte, withCommands bool) (alloc uint64, o *observed) {
 	o = &observed{}
-	end := w.Begin("stream/"+class, desc+": "+hx.Hex(stream, 600), 90*time.Second)
+	// the watchdog only has to tell "never" from "slowly on a loaded machine": streams of tens of
+	// megabytes (deep nesting, scaling families) get a bound far above anything load explains
+	limit := 90 * time.Second
+	if len(stream) > 1<<20 {
+		limit = 600 * time.Second
+	}
+	end := w.Begin("stream/"+class, desc+": "+hx.Hex(stream, 600), limit)
 	defer end()
 	log := &vconn.Log{}
 	cEnd, sEnd := vconn.Pipe("client", "server", log)
@@ -993,6 +1001,83 @@ func deepProbes() map[string]func(n int) string {
 	}
 }
 
+// feedStartTLS: the STARTTLS entry point against a server that sends `trailing` in the same
+// segment as its tagged OK (RFC 3501 forbids it; a hostile or broken server does it anyway).
+// Whatever the bytes are, NewStartTLS returns, a command issued afterwards completes, Close
+// returns, and nothing reports a reader panic.
+func feedStartTLS(w *hx.W, name string, okLine string, trailing []byte) {
+	desc := fmt.Sprintf("STARTTLS answered %q followed in the same segment by %s", okLine, hx.Hex(trailing, 300))
+	end := w.Begin("starttls/"+name, desc, 120*time.Second)
+	defer end()
+	log := &vconn.Log{}
+	cEnd, sEnd := vconn.Pipe("client", "server", log)
+	go func() {
+		br := bufio.NewReader(sEnd)
+		sEnd.Write([]byte("* OK [CAPABILITY IMAP4rev1 STARTTLS LOGINDISABLED] ready\r\n"))
+		line, err := br.ReadString('\n')
+		if err != nil {
+			sEnd.Close()
+			return
+		}
+		tag := strings.Fields(line + " x")[0]
+		sEnd.Write(append([]byte(strings.ReplaceAll(okLine, "TAG", tag)), trailing...))
+		// swallow whatever the client sends next (a ClientHello, or nothing), then hang up
+		buf := make([]byte, 4096)
+		sEnd.SetReadDeadline(time.Now().Add(200 * time.Millisecond))
+		br.Read(buf)
+		sEnd.Close()
+	}()
+	fail := func(class, detail string) {
+		w.Violation(class+"@starttls/"+name, desc+": "+detail, map[string]interface{}{"ok_line": okLine, "trailing": hx.Hex(trailing, 2000)})
+	}
+	var errs []string
+	type res struct {
+		c   *imapclient.Client
+		err error
+	}
+	ch := make(chan res, 1)
+	go func() {
+		c, err := imapclient.NewStartTLS(cEnd, &imapclient.Options{TLSConfig: &tls.Config{InsecureSkipVerify: true}})
+		ch <- res{c, err}
+	}()
+	var r res
+	select {
+	case r = <-ch:
+	case <-time.After(60 * time.Second):
+		fail("starttls-never-returns", "NewStartTLS has not returned 60 s after the server closed the connection\n"+hx.Goroutines("imapclient"))
+		cEnd.Close()
+		return
+	}
+	if r.err != nil {
+		errs = append(errs, r.err.Error())
+	}
+	if r.c != nil {
+		done := make(chan struct{})
+		go func() {
+			defer close(done)
+			if err := r.c.Noop().Wait(); err != nil {
+				errs = append(errs, err.Error())
+			}
+			if err := r.c.Close(); err != nil {
+				errs = append(errs, err.Error())
+			}
+		}()
+		select {
+		case <-done:
+		case <-time.After(60 * time.Second):
+			fail("command-never-completes", "NOOP / Close after NewStartTLS have not returned 60 s after the server closed the connection\n"+hx.Goroutines("imapclient"))
+			cEnd.Close()
+			return
+		}
+	}
+	for _, e := range errs {
+		if strings.Contains(e, "panic reading response") {
+			fail("reader-panic@"+hx.PanicSite(e), strings.SplitN(e, "\n", 2)[0])
+		}
+	}
+	cEnd.Close()
+}
+
 func body(w *hx.W) {
 	rng := w.Rand("streams")
 	// 1. targeted invariant probes (with all commands completing OK afterwards)
@@ -1132,6 +1217,41 @@ func body(w *hx.W) {
 		}
 		w.Class("truncated-literal/" + name)
 	}
+	// 4c. the STARTTLS entry point: bytes behind the tagged completion, in the same segment
+	okLines := []string{"TAG OK begin TLS now\r\n", "TAG OK [CAPABILITY IMAP4rev1] go\r\n", "TAG NO not now\r\n", "TAG BAD what\r\n", "TAG ok lower\r\n", "* 2 EXISTS\r\nTAG OK after data\r\n", "* BYE going\r\nTAG OK bye first\r\n", "+ go\r\nTAG OK after continuation\r\n"}
+	trailers := [][]byte{nil, []byte("* 1 EXISTS\r\n"), []byte("* 1 EXISTS\r\n\x16\x03\x03\x00\x05hello"), []byte("\x16\x03\x01\x00\x02\x02\x28"), []byte("\x15\x03\x03\x00\x02\x02\x28"), []byte("TAG OK again\r\n"), []byte("T1 OK again\r\n"), []byte("* PREAUTH hi\r\n"), []byte("* BYE\r\n"), []byte("{5}\r\n"), []byte("\r\n"), []byte("\x00"), bytes.Repeat([]byte("x"), 5000), []byte("* OK [CAPABILITY IMAP4rev1 AUTH=PLAIN] injected\r\n")}
+	si := 0
+	nST := 0
+	for oi, okl := range okLines {
+		for ti, tr := range trailers {
+			si++
+			if !w.Mine(si) {
+				continue
+			}
+			feedStartTLS(w, fmt.Sprintf("ok%d/trailer%d", oi, ti), okl, tr)
+			w.CaseStr(fmt.Sprintf("starttls:%d:%d", oi, ti))
+			nST++
+		}
+	}
+	for k := 0; k < w.Pick(60, 2000); k++ {
+		var tr []byte
+		if rng.Intn(2) == 0 {
+			tr = []byte(genLine(rng))
+			if rng.Intn(2) == 0 {
+				tr = mutate(rng, tr)
+			}
+		} else {
+			tr = make([]byte, 1+rng.Intn(64))
+			for j := range tr {
+				tr[j] = byte(rng.Intn(256))
+			}
+		}
+		feedStartTLS(w, "generated", okLines[rng.Intn(2)], tr)
+		w.Case(hx.HashBytes(tr))
+		nST++
+	}
+	w.Class("starttls-trailing-bytes")
+	w.Metric("starttls_streams", int64(nST))
 	// 5. deep nesting probes: only the stack bound matters (prompt error or fatal stack overflow of this worker)
 	di := 0
 	depths := []int{100000, 400000}
